@@ -157,7 +157,24 @@ type simOpts struct {
 	schedRR      bool
 }
 
+// simEvent describes one harness event to observers (step-commuting records).
+type simEvent struct {
+	kind string // "deliver", "write", "advance"
+	side int    // deliver: receiving side; write: writing side
+	pkt  *simPkt
+	sid  uint16
+	n    int
+	err  error
+	d    time.Duration
+}
+
+type simObserver interface {
+	before(s *sim, ev *simEvent)
+	after(s *sim, ev *simEvent)
+}
+
 type sim struct {
+	obs    []simObserver
 	t      *testing.T
 	opts   simOpts
 	start  time.Time
@@ -177,17 +194,18 @@ type sim struct {
 	recvd   [2]map[uint16][]simMsg
 	streams [2]map[uint16]*Stream
 	// wire-level ghost state for the monitors
-	deliveredTSN [2]map[uint32]bool // TSNs of DATA/I-DATA chunks delivered to side x
-	fwdTo        [2][]uint32        // new cumulative TSNs of FORWARD-TSNs delivered to side x
-	sackCum      [2]uint32          // last cumulative ack emitted by side x
-	sackSeen     [2]bool
-	firstTx      [2]map[uint32]int // sender side: TSN -> payload length of first transmissions seen on the wire
-	txCount      [2]map[uint32]int // transmissions per TSN
-	ackedByPeer  [2]map[uint32]bool
-	lastARwnd    [2]uint32 // last a_rwnd delivered TO side x (in a SACK), valid if haveARwnd
-	haveARwnd    [2]bool
-	peerInitRwnd [2]uint32
-	label        string
+	deliveredTSN  [2]map[uint32]bool // TSNs of DATA/I-DATA chunks delivered to side x
+	fwdTo         [2][]uint32        // new cumulative TSNs of FORWARD-TSNs delivered to side x
+	sackCum       [2]uint32          // last cumulative ack emitted by side x
+	sackSeen      [2]bool
+	firstTx       [2]map[uint32]int // sender side: TSN -> payload length of first transmissions seen on the wire
+	txCount       [2]map[uint32]int // transmissions per TSN
+	ackedByPeer   [2]map[uint32]bool
+	probeOversize [2]bool
+	lastARwnd     [2]uint32 // last a_rwnd delivered TO side x (in a SACK), valid if haveARwnd
+	haveARwnd     [2]bool
+	peerInitRwnd  [2]uint32
+	label         string
 }
 
 func (s *sim) now() time.Duration { return time.Since(s.start) }
@@ -246,8 +264,13 @@ func simLoggerFactory() logging.LoggerFactory {
 
 // newSim creates both associations (side 0 = client unless bothClients) and starts their handshake.
 // Must be called inside a synctest bubble.
+var simObserverFactory func() []simObserver // set by tests that record step-commuting traces
+
 func newSim(t *testing.T, o simOpts, label string) *sim {
 	s := &sim{t: t, opts: o, start: time.Now(), label: label}
+	if simObserverFactory != nil {
+		s.obs = simObserverFactory()
+	}
 	for i := 0; i < 2; i++ {
 		s.conn[i] = &simConn{sim: s, side: i, in: make(chan []byte, 4096), closed: make(chan struct{}), rdl: make(chan struct{})}
 		s.sent[i] = map[uint16][]simMsg{}
@@ -356,6 +379,10 @@ func (s *sim) deliver(from, idx int, keep bool) {
 	to := 1 - from
 	s.logEvent("deliver from=%d id=%d keep=%v %s", from, p.id, keep, pktSummary(p))
 	s.onDeliver(p, to)
+	ev := &simEvent{kind: "deliver", side: to, pkt: p}
+	for _, o := range s.obs {
+		o.before(s, ev)
+	}
 	select {
 	case <-s.conn[to].closed:
 	default:
@@ -366,6 +393,9 @@ func (s *sim) deliver(from, idx int, keep bool) {
 		}
 	}
 	s.settle()
+	for _, o := range s.obs {
+		o.after(s, ev)
+	}
 }
 
 func (s *sim) drop(from, idx int) {
@@ -388,8 +418,15 @@ func (s *sim) inject(to int, raw []byte, what string) {
 
 func (s *sim) advance(d time.Duration) {
 	s.logEvent("advance %v", d)
+	ev := &simEvent{kind: "advance", d: d}
+	for _, o := range s.obs {
+		o.before(s, ev)
+	}
 	time.Sleep(d)
 	s.settle()
+	for _, o := range s.obs {
+		o.after(s, ev)
+	}
 }
 
 // deliverAllInOrder delivers parked packets (both directions, oldest first) until none is left,
@@ -478,12 +515,20 @@ func (s *sim) write(side int, sid uint16, n int, ppi PayloadProtocolIdentifier) 
 	st.lock.RLock()
 	un := st.unordered && ppi != PayloadTypeWebRTCDCEP
 	st.lock.RUnlock()
+	ev := &simEvent{kind: "write", side: side, sid: sid, n: n}
+	for _, o := range s.obs {
+		o.before(s, ev)
+	}
 	w, err := st.WriteSCTP(simPayload(side, sid, idx, n), ppi)
 	s.logEvent("write side=%d sid=%d n=%d ppi=%d -> %d,%v", side, sid, n, ppi, w, err)
 	if err == nil && n > 0 {
 		s.sent[side][sid] = append(s.sent[side][sid], simMsg{sid: sid, ppi: ppi, idx: idx, n: n, unordered: un})
 	}
 	s.settle()
+	ev.err = err
+	for _, o := range s.obs {
+		o.after(s, ev)
+	}
 	return err
 }
 
@@ -727,13 +772,19 @@ func (s *sim) checkWindowOnFirstTx(side int, p *simPkt, v *chunkPayloadData) {
 	// new chunks of this packet sent together are each checked cumulatively (map order is irrelevant:
 	// `out` already contains all first transmissions seen so far including this one)
 	if before == 0 {
-		return // probe / first chunk when nothing was outstanding
+		// probe / first chunk when nothing was outstanding; remember whether it overshot a non-zero window
+		s.probeOversize[side] = len(v.userData) > arwnd && arwnd > 0
+		return
 	}
 	if out > cwnd {
 		s.fail("C10", fmt.Sprintf("new data beyond cwnd: side=%d outstanding=%d cwnd=%d tsn=%d len=%d", side, out, cwnd, v.tsn, len(v.userData)))
 	}
-	if s.haveARwnd[side] && out > arwnd && out > int(s.peerInitRwnd[side]) {
-		s.fail("C10", fmt.Sprintf("new data beyond peer's advertised window: side=%d outstanding=%d a_rwnd=%d tsn=%d", side, out, arwnd, v.tsn))
+	if out > arwnd {
+		key := "beyond-arwnd"
+		if s.probeOversize[side] {
+			key = "stale-rwnd-after-oversize-probe"
+		}
+		s.fail("C10", fmt.Sprintf("new data beyond peer's advertised window (%s): side=%d outstanding=%d a_rwnd=%d tsn=%d len=%d", key, side, out, arwnd, v.tsn, len(v.userData)))
 	}
 }
 
@@ -764,6 +815,7 @@ func (s *sim) onDeliver(p *simPkt, to int) {
 			}
 			s.lastARwnd[to] = v.advertisedReceiverWindowCredit
 			s.haveARwnd[to] = true
+			s.probeOversize[to] = false
 		case *chunkInit:
 			s.peerInitRwnd[to] = v.advertisedReceiverWindowCredit
 		case *chunkInitAck:
